@@ -16,6 +16,8 @@ from nutree import tree_generator as tg
 
 ID = "C20"
 LEVEL = "exploration"
+TECHNIQUE = 'property-based testing with a validity predicate over generated structure definitions and seeds'
+LEVEL_TEXT = 'exploration: generated structure definitions (relation graphs, counts, every Randomizer class, templates, factories, callbacks) x seeds x Tree/TypedTree, built twice from the same definition object'
 RULE = (
     "case = (structure definition as JSON: 1-5 type names, acyclic relation graph from __root__ in which a child type "
     "may occur under several parents, fixed counts 0-3 or RangeRandomizer counts, `types` defaults incl. '*', "
